@@ -274,6 +274,27 @@ def rand_matrix(rng, n, shape):
     raise RuntimeError("no well-conditioned matrix")
 
 
+def input_precision(meta, n):
+    """precision matrix implied by the constructor arguments (documented meaning of cov / prec / sqrtprec), computed from the
+    numbers in the case description alone; None where the documented meaning and the code's convention differ (sqrtcov)"""
+    form, shp, val = meta["form"], meta["shape"], meta["value"]
+    if meta.get("mean_variant") or form == "sqrtcov":
+        return None
+    if shp == "scalar":
+        M = np.eye(n) * float(val)
+    elif shp == "vector":
+        M = np.diag(np.asarray(val, dtype=float))
+    else:
+        M = np.asarray(val, dtype=float)
+    if form == "sqrtprec":
+        return M.T @ M
+    if form == "prec":
+        return M
+    if form == "cov":
+        return np.linalg.inv(M)
+    return None
+
+
 def gaussian_configs(ctx):
     """(form, shape, sparse_input, dim) cells"""
     cfgs = []
@@ -294,7 +315,7 @@ def gaussian_configs(ctx):
                     cfgs += [(form, "lower", True, n), (form, "upper", True, n), (form, "full", True, n), (form, "diag", True, n)]
                 elif form in ("prec", "cov"):
                     cfgs.append((form, "spd", True, n))
-    big = [76] if not ctx.thorough else [74, 75, 76, 77]
+    big = [75, 76] if not ctx.thorough else [74, 75, 76, 77]      # MIN_DIM_SPARSE = 75: `dim > 75` switches the storage
     for n in big:
         cfgs += [("sqrtprec", "vector", False, n), ("cov", "scalar", False, n)]
         if ctx.thorough:
@@ -444,8 +465,14 @@ def gaussian_case(ctx, meta, states=None):
     H = hessian_of_logd(d, n, center=np.zeros(n) if "hstep" not in meta else bm, step=float(meta.get("hstep", 1.0)))
     defect, tol = cov_defect(H, T, 1e-6)
     fail, sig = None, ""
+    Hin = input_precision(meta, n)          # reference that does NOT come from the object under test
     full_lower_by_tolerance = (not sparse) and lower and bool(np.any(np.triu(S, 1)))
-    if not np.allclose(off, bm, atol=1e-12):
+    if Hin is not None and not np.allclose(H, Hin, rtol=1e-7, atol=1e-9 * float(np.abs(Hin).max())):
+        fail = ("the object's logd is not the Gaussian log-density of the parameters it was given (%s:%s): Hessian differs from the "
+                "precision implied by the constructor arguments by %.3g (relative)" % (meta["form"], meta["shape"],
+                float(np.abs(H - Hin).max() / np.abs(Hin).max())))
+        sig = "Gaussian.logd|parameters:%s" % meta["form"]
+    elif not np.allclose(off, bm, atol=1e-12):
         fail = "offset of the draws %s is not the mean %s" % (off, bm)
         sig = "Gaussian._sample|offset"
     elif defect > tol:
@@ -672,6 +699,25 @@ def gaussian_exact_cases(ctx, cases):
                 cases.append(gaussian_exact_case(ctx, meta))
 
 
+def refusal_cases(ctx, cases):
+    """classes of the anchored files that have no direct sampler: they must refuse, not return something"""
+    import cuqi
+    D = cuqi.distribution
+    specs = {"JointGaussianSqrtPrec": lambda: D.JointGaussianSqrtPrec([np.zeros(2), np.zeros(2)], [np.eye(2), 2 * np.eye(2)]),
+             "UserDefined(no sample_func)": lambda: D.UserDefinedDistribution(dim=2, logpdf_func=lambda x: -0.5 * np.sum(x ** 2)),
+             "Gallery(donut)": lambda: D.DistributionGallery("donut"), "Gallery(banana)": lambda: D.DistributionGallery("banana")}
+    for name, mk in specs.items():
+        for N in (1, 3):
+            try:
+                d = quiet(mk)
+                w = quiet(d.sample, N, rng=np.random.RandomState(0))
+                fail = "%s.sample(%d) returned %s although the class has no direct sampler" % (name, N, type(w).__name__)
+            except Exception as e:
+                fail = None
+            cases.append(Case(expr=cbool(fail is None), meta={"op": "refusal", "name": name, "N": N}, cell="refusal/%s" % name, kind="DECISION",
+                              trivial=True, impl_fail=fail, signature="Distribution.sample|no-sampler-but-draws" if fail else ""))
+
+
 ENTRY_SPECS = [["Normal", [0.0, 1.0, -1.0], 2.0], ["Normal", 0.5, 2.0], ["Gamma", [1.0, 2.0, 3.0], [1.0, 1.0, 2.0]],
                ["Gaussian", [0.0, 1.0], "sqrtprec", [[2.0, 1.0], [0.0, 1.0]]], ["GMRF", [0.0, 0.0, 0.0, 0.0], 2.0, "zero", 1],
                ["GMRF", [0.0, 0.0, 0.0, 0.0], 2.0, "neumann", 1], ["Beta", 2.0, 3.0], ["Uniform", [0.0, 1.0, 2.0], [1.0, 3.0, 5.0]],
@@ -708,6 +754,21 @@ def entry_case(ctx, meta):
         for nm, w in threes.items():
             if not np.array_equal(np.asarray(w.samples, dtype=float), b0):
                 fail = "%s differs from sample(3, g) under the same generator state" % nm
+    if not fail:
+        # keep-alive / aliasing: overwrite every array that was handed out, then draw again under the same generator state
+        keep1 = np.array(np.asarray(list(ones.values())[0], dtype=float), copy=True)
+        keep3 = np.array(np.asarray(list(threes.values())[0].samples, dtype=float), copy=True)
+        for w in ones.values():
+            a = np.asarray(w)
+            if a.ndim >= 1 and a.flags.writeable:
+                a[...] = 777.0
+        for w in threes.values():
+            if np.asarray(w.samples).flags.writeable:
+                np.asarray(w.samples)[...] = 777.0
+        again1 = np.asarray(quiet(d.sample, 1, RS()), dtype=float)
+        again3 = np.asarray(quiet(d.sample, 3, RS()).samples, dtype=float)
+        if not (np.array_equal(again1, keep1) and np.array_equal(again3, keep3)):
+            fail = "after overwriting the arrays returned by earlier sample() calls, the same generator state gives other draws (outputs alias internal state)"
     return Case(expr=" && ".join(exprs), meta=meta, cell="entry/%s" % spec[0], kind="EXACT", impl_fail=fail,
                 signature=("Distribution.sample|call-style:%s" % spec[0]) if fail else "")
 
@@ -848,6 +909,7 @@ def gmrf_cases(ctx, cases):
     ctx.note("gmrf: single-draw repair state (1 = broadcast n x n as the code stands, 2 = column): %s" % dict(n1_states))
 
 
+@failing_input('GMRF')
 def gmrf_refuse_case(ctx, meta):
     d = build_gmrf(meta)
     try:
@@ -898,7 +960,12 @@ def gmrf_case(ctx, meta, n1_states=None):
     defect, tol = cov_defect(H, T, 1e-5)
     fail, sig = None, ""
     bm = np.repeat(mean, n) if len(mean) == 1 else mean
-    if not np.allclose(off, bm, atol=1e-12):
+    Hin = prec * (D.T @ D)       # D is a certificate checked exactly against the model's stencil (check_diffop)
+    if not np.allclose(H, Hin, rtol=1e-7, atol=1e-9 * float(np.abs(Hin).max())):
+        fail = ("GMRF(%s, order %d): the Hessian of the object's logd is not prec * D^T D for the documented difference operator "
+                "(relative difference %.3g)" % (bc, meta["order"], float(np.abs(H - Hin).max() / np.abs(Hin).max())))
+        sig = "GMRF.logd|parameters"
+    elif not np.allclose(off, bm, atol=1e-12):
         fail, sig = "offset of the draws is not the mean", "GMRF._sample|offset"
     elif defect > tol:
         fail = ("GMRF(%s, order %d, dim %d%s): covariance of the draws is not the generalised inverse of the precision implied by "
@@ -984,8 +1051,19 @@ def build_univariate(meta):
     import cuqi
     fam = meta["family"]
     ps = [np.array(p, dtype=float) if isinstance(p, list) else float(p) for p in meta["params"]]
+    style = meta.get("pstyle", "float")
+    def restyle(p):
+        integral = bool(np.all(np.asarray(p) == np.round(np.asarray(p))))
+        if style == "int" and integral:          # python ints / integer arrays
+            return np.asarray(p).astype(int) if isinstance(p, np.ndarray) else int(p)
+        if style == "list" and isinstance(p, np.ndarray) and meta["family"] in ("Gamma", "InverseGamma", "Beta", "Cauchy"):
+            return p.tolist()        # Normal / Uniform / Laplace do not coerce their parameters: their logpdf refuses python lists (TypeError)
+        if style == "f32" and isinstance(p, np.ndarray):
+            return p.astype(np.float32)
+        return p
+    ps = [restyle(p) for p in ps]
     kw = {}
-    if all(not isinstance(p, np.ndarray) for p in ps) and meta["dim"] > 1:
+    if all(not isinstance(p, (np.ndarray, list)) for p in ps) and meta["dim"] > 1:
         kw["geometry"] = meta["dim"]
     return quiet(getattr(cuqi.distribution, fam), *ps, **kw)
 
@@ -1027,7 +1105,8 @@ def univariate_cases(ctx, cases):
                     ps = rand_params(rng, fam, form, n)
                     G = [[rng.randint(1, 63) / 64 for _ in range(n)] for _ in range(N)]
                     meta = {"op": "wiring", "family": fam, "form": form, "dim": n, "N": N, "params": ps, "G": G,
-                            "iface": ["rng", "global"][k % 2], "xseed": rng.randint(0, 10 ** 6)}
+                            "iface": ["rng", "global"][k % 2], "xseed": rng.randint(0, 10 ** 6),
+                            "pstyle": ["float", "int", "list", "f32"][(k // 2) % 4]}
                     cases.append(wiring_case(ctx, meta))
 
 
@@ -1114,7 +1193,7 @@ def wiring_case(ctx, meta, dist=None):
         x = np.asarray(dist.rvs(size=n, random_state=np.random.RandomState(meta["xseed"])), dtype=float)
         _, ref = ref_logpdf(gname, bargs, x)
         got = float(np.ravel(d.logpdf(x))[0])
-        if not (abs(ref - got) <= 1e-8 * (1 + abs(ref))):
+        if not (abs(ref - got) <= (1e-5 if meta.get("pstyle") == "f32" else 1e-8) * (1 + abs(ref))):
             fail = ("%s: the generator is called as %s(%s) whose log-density at x=%s is %.12g, but the object's logpdf(x) = %.12g"
                     % (fam, gname, ", ".join("%s=%s" % (nm, a.tolist()) for nm, a in zip(argnames, args)), x.tolist(), ref, got))
     return Case(expr=expr, meta=meta, cell="wiring/%s/%s/N=%d/%s" % (fam, meta["form"], N, meta["iface"]), kind="EXACT",
@@ -1142,7 +1221,9 @@ def build_named(spec):
     if nm == "UserDefined":
         dim, seed, use_global = a
         loc = np.random.RandomState(seed)
-        if use_global:
+        if use_global == "accepts_rng":      # a user function written to receive the generator
+            f = lambda rng=None: (np.random if rng is None else rng).standard_normal(dim)
+        elif use_global:
             f = lambda: np.random.randn(dim)
         else:
             f = lambda: loc.randn(dim)
@@ -1244,6 +1325,7 @@ def wrapper_case(ctx, meta):
                 signature=("Distribution.sample|shape:%s" % meta["spec"][0]) if fail else "")
 
 
+@failing_input(lambda m: m['spec'][0])
 def wrapper_defect_case(ctx, meta):
     N = meta["N"]
     d = build_named(meta["spec"])
@@ -1252,6 +1334,20 @@ def wrapper_defect_case(ctx, meta):
         fail = shape_verdict(d, w, N)
     except Exception as e:
         fail = "sample(%d) raises %s: %s" % (N, type(e).__name__, str(e)[:100])
+    if not fail and isinstance(meta["spec"][1], list):
+        # repaired state (fixes/C05_mhn_sample_components.diff): component i must be drawn with the i-th parameters -- the proposal calls
+        # of the vector object are those of the scalar objects MHN(alpha_i, beta_i, gamma_i), component after component
+        try:
+            mk = lambda: MHNScript([1.0] * 400, [1e-300] * 400)
+            sv = mk(); quiet(d.sample, N, rng=sv)
+            ref = []
+            for i in range(len(meta["spec"][1])):
+                si = mk(); quiet(build_named([meta["spec"][0]] + [p[i] for p in meta["spec"][1:4]]).sample, N, rng=si)
+                ref += si.calls
+            if sv.calls != ref:
+                fail = "component i is not drawn with the i-th parameters (proposal calls differ from those of the scalar objects)"
+        except Exception as e:
+            fail = "scripted sampling raises %s: %s" % (type(e).__name__, e)
     if fail:
         fail = "%s with parameters %s (dimension %d): %s" % (meta["spec"][0], meta["spec"][1:], d.dim, fail)
     return Case(expr="true", meta=meta, cell="wrap-oracle/%s" % meta["spec"][0], kind="DECISION", trivial=True, impl_fail=fail,
@@ -1288,6 +1384,7 @@ def conditional_cases(ctx, cases):
                 cases.append(conditional_case(ctx, {"op": "cond", "name": name, "N": N, "rng": with_rng}))
 
 
+@failing_input('Distribution')
 def conditional_case(ctx, meta):
     d, steps = quiet(build_cond, meta["name"])
     N = meta["N"]
@@ -1330,7 +1427,7 @@ def conditional_case(ctx, meta):
 
 
 RNG_SPECS = WRAP_SPECS + [["GMRF", [0.0, 0.0, 0.0, 0.0], 2.0, "neumann", 1], ["GMRF", [0.0, 0.0, 0.0, 0.0], 2.0, "periodic", 1],
-                          ["ModifiedHalfNormal", 128.0, 3.0, -4.0], ["UserDefined", 2, 5, True]]
+                          ["ModifiedHalfNormal", 128.0, 3.0, -4.0], ["UserDefined", 2, 5, True], ["UserDefined", 2, 5, "accepts_rng"]]
 CLASS_OF = {"UserDefined": ["UserDefinedDistribution"], "Gallery": ["DistributionGallery", "Gaussian"], "Lognormal": ["Lognormal", "Gaussian"]}
 
 
@@ -1385,6 +1482,7 @@ def rng_cases(ctx, cases, sites):
                 cases.append(rng_case(ctx, {"op": "rng", "spec": spec, "N": N, "kind": kind}, sites))
 
 
+@failing_input(lambda m: m['spec'][0])
 def rng_case(ctx, meta, sites=None):
     try:
         with time_limit(60):
@@ -1517,8 +1615,8 @@ def mhn_run(dobj, a, b, g, p, u, q):
     return len(scr.calls) == 2, scr.calls, float(x)
 
 
-MHN_PARAMS = [(5, 1, 3), (3, 1, 2), (4, 2, 5), (10, 0.5, 4), (8, 1, 6), (1.5, 1.5, 1.5), (3, 3, 3), (1.5, 1, 1), (6, 6, 6),
-              (0.5, 1, 1), (1, 2, 3), (0.75, 2, 0.5), (2, 3, -1), (0.5, 1, -2), (4, 0.5, -0.5), (16, 3, -4), (1, 1, 0), (2.5, 2, 0.25),
+MHN_PARAMS = [(5, 1, 3), (3, 1, 2), (1, 1, 0), (3, 2, 0), (4, 2, 5), (10, 0.5, 4), (8, 1, 6), (1.5, 1.5, 1.5), (3, 3, 3), (1.5, 1, 1), (6, 6, 6),
+              (0.5, 1, 1), (1, 2, 3), (0.75, 2, 0.5), (2, 3, -1), (0.5, 1, -2), (4, 0.5, -0.5), (16, 3, -4), (2.5, 2, 0.25),
               (7, 2, 9), (2, 1, 4)]
 
 
@@ -1526,7 +1624,7 @@ def mhn_cases(ctx, cases):
     import cuqi
     rng = ctx.rng
     dobj = cuqi.distribution.ModifiedHalfNormal(1.0, 1.0, 1.0)
-    plist = MHN_PARAMS if ctx.thorough else MHN_PARAMS[:14]
+    plist = MHN_PARAMS if ctx.thorough else MHN_PARAMS[:16]
     for (a, b, g) in plist:
         q = mhn_quantities(a, b, g)
         oracle = mhn_acceptance_oracle(dobj, a, b, g, q)
@@ -1554,6 +1652,7 @@ def mhn_cases(ctx, cases):
         if oracle:
             cases.append(Case(expr="true", meta={"op": "mhn", "a": a, "b": b, "g": g, "p": q["center"], "u": 0.5, "verdict_only": True},
                               cell="mhn/%s/verdict" % q["scheme"], trivial=True, kind="DECISION", impl_fail=oracle[0], signature=oracle[1]))
+    mhn_helper_cases(ctx, cases)
     # the public path: the parameters the sampler works with are those of the density the object reports
     for (a, b, g) in [(2.0, 3.0, 1.0), (0.5, 0.5, 0.5), (3.0, 3.0, 3.0), (1.0, 2.0, 3.0), (6.0, 3.0, -4.0)]:
         for N in (1, 2):
@@ -1606,6 +1705,53 @@ def mhn_case(ctx, meta, dobj=None):
     prop, tac = mhn_prop(a, b, g, first, p, u, accepted, q.get("Gam"))
     scheme = "neg" if g <= 0 else ("gam" if first[0] == "gamma" else "norm")
     return Case(expr=prop, tac=tac, meta=meta, cell="mhn/%s/%s" % (scheme, "accept" if accepted else "reject"), kind="ENCLOSURE")
+
+
+@failing_input('ModifiedHalfNormal')
+def mhn_helper_case(ctx, meta):
+    """the rejection helpers called directly, with their optional arguments left at None (delta / mu computed inside) or, for the
+    gamma <= 0 scheme, with an explicit matching point m (number or 'mode')"""
+    import cuqi
+    dobj = cuqi.distribution.ModifiedHalfNormal(1.0, 1.0, 1.0)
+    a, b, g, which = meta["a"], meta["b"], meta["g"], meta["which"]
+    p, u = meta["p"], meta["u"]
+    scr = MHNScript([p] * 8, [u] * 8)
+    if which == "gamma_proposal":
+        dobj._MHN_sample_gamma_proposal(a, b, g, scr)            # delta=None
+    elif which == "normal_proposal":
+        dobj._MHN_sample_normal_proposal(a, b, g, None, scr)     # mu=None
+    else:
+        dobj._MHN_sample_negative_gamma(a, b, g, scr, m=meta["m"])
+    first = scr.calls[0]
+    A, B, G = cr(a), cr(b), cr(g)
+    tol = "(1 / 1000000000)"
+    if which == "gamma_proposal":
+        props = ["Rabs (%s / 2 - %s) <= %s" % (A, cr(first[1]), tol), "Rabs (mhn_delta %s %s %s * %s - 1) <= %s" % (A, B, G, cr(first[2]), tol)]
+        unf = "unfold mhn_delta."
+    elif which == "normal_proposal":
+        props = ["Rabs (mhn_mu %s %s %s - %s) <= %s" % (A, B, G, cr(first[1]), tol), "Rabs (mhn_norm_sd %s - %s) <= %s" % (B, cr(first[2]), tol)]
+        unf = "unfold mhn_mu, mhn_norm_sd."
+    else:
+        m = meta["m"]
+        mq = "(mhn_neg_m %s %s %s)" % (A, B, G) if (m == "mode" or (m is None and a > 1)) else ("1" if m is None else cr(m))
+        props = ["Rabs (%s * mhn_neg_v1 %s %s %s - %s) <= %s" % (A, B, G, mq, cr(first[1]), tol),
+                 "Rabs (mhn_neg_v2 %s %s %s * %s - 1) <= %s" % (B, G, mq, cr(first[2]), tol)]
+        unf = "unfold mhn_neg_v1, mhn_neg_v2, mhn_neg_m."
+    ok_len = len(scr.calls) == 2           # forced accept at the first proposal
+    props.append("0 < 1" if ok_len else "1 < 0")
+    return Case(expr=" /\\ ".join("(%s)" % x for x in props), tac=unf + " repeat split; interval with (i_prec 90).", meta=meta,
+                cell="mhn/helper/%s" % which, kind="ENCLOSURE")
+
+
+def mhn_helper_cases(ctx, cases):
+    for (a, b, g, which, m) in [(0.75, 2, 0.5, "gamma_proposal", None), (3, 3, 3, "gamma_proposal", None), (5, 1, 3, "normal_proposal", None),
+                                (4, 2, 5, "normal_proposal", None), (2, 3, -1, "neg", None), (0.5, 1, -2, "neg", None), (2, 3, -1, "neg", "mode"),
+                                (0.5, 1, -2, "neg", 0.75), (4, 0.5, -0.5, "neg", 1.5), (1, 1, 0, "neg", "mode")]:
+        q = mhn_quantities(a, b, g)
+        center = {"gamma_proposal": (g / (2 * (b - (b + (g * g - g * math.sqrt(g * g + 8 * b * a)) / (4 * a))))) ** 2 if g > 0 else 1.0,
+                  "normal_proposal": (g + math.sqrt(g * g + 8 * b * (a - 1))) / (4 * b) if a > 1 else 1.0, "neg": 1.0}[which]
+        cases.append(mhn_helper_case(ctx, {"op": "mhn_helper", "a": a, "b": b, "g": g, "which": which, "m": m,
+                                           "p": round(center * 64) / 64 or 1 / 64, "u": 2.0 ** -200}))
 
 
 def mhn_acceptance_oracle(dobj, a, b, g, q):
@@ -1987,6 +2133,7 @@ def run(ctx):
         gaussian_scale_cases(ctx, cases)
         gaussian_exact_cases(ctx, cases)
         entry_cases(ctx, cases)
+        refusal_cases(ctx, cases)
         lognormal_cases(ctx, cases)
         gmrf_cases(ctx, cases)
         univariate_cases(ctx, cases)
@@ -2051,7 +2198,7 @@ REBUILD = {"gaussian": lambda ctx, m: [gaussian_case(ctx, m)], "lognormal": lamb
            "wrap": lambda ctx, m: [wrapper_case(ctx, m)], "wrap_defect": lambda ctx, m: [wrapper_defect_case(ctx, m)],
            "cond": lambda ctx, m: [conditional_case(ctx, m)], "rng": lambda ctx, m: [rng_case(ctx, m)],
            "mhn": lambda ctx, m: [mhn_case(ctx, m)], "mhn_public": lambda ctx, m: [mhn_public_case(ctx, m)],
-           "gauss_exact": lambda ctx, m: [gaussian_exact_case(ctx, m)], "entry": lambda ctx, m: [entry_case(ctx, m)],
+           "mhn_helper": lambda ctx, m: [mhn_helper_case(ctx, m)], "gauss_exact": lambda ctx, m: [gaussian_exact_case(ctx, m)], "entry": lambda ctx, m: [entry_case(ctx, m)],
            "hist_gauss": lambda ctx, m: [gaussian_history_case(ctx, m)], "hist_gmrf": lambda ctx, m: [gmrf_history_case(ctx, m)],
            "hist_uni": lambda ctx, m: [univariate_history_case(ctx, m)], "hist_lognormal": lambda ctx, m: [lognormal_history_case(ctx, m)]}
 
